@@ -53,14 +53,17 @@ OUTCOME_ALPHABET = {"list", "FailedPayloadsError", "LeaderUnavailableError", "Pa
 
 
 class _Shuffle:
-    def __init__(self, ctx):
+    def __init__(self, ctx, max_perms=None):
         self.ctx = ctx
+        self.max_perms = max_perms
 
     def shuffle(self, lst):
         n = len(lst)
         if n <= 1:
             return
         perms = list(itertools.permutations(range(n)))
+        if self.max_perms and len(perms) > self.max_perms:
+            perms = [perms[0], perms[-1]][: self.max_perms]  # identity and reversal
         k = self.ctx.choose("shuffle%d" % n, len(perms))
         cp = list(lst)
         for i, j in enumerate(perms[k]):
